@@ -338,13 +338,22 @@ class FakeGlob:
     def glob(self, pat):
         return self.fs.glob(pat)
 
+    def escape(self, p):
+        import glob as _g
+
+        return _g.escape(p)
+
 
 class FakeShutil:
     def __init__(self, fs):
         self.fs = fs
 
-    def rmtree(self, p):
-        self.fs.rmtree(p)
+    def rmtree(self, p, ignore_errors=False, onerror=None):
+        try:
+            self.fs.rmtree(p)
+        except OSError:
+            if not ignore_errors:
+                raise
 
     def copy(self, a, b):
         self.fs.put(b, self.fs.get(a))
